@@ -64,43 +64,36 @@ Section Spec.
   Variable init_sm : sm.
   Variable nid : N -> pipe N -> N * pipe N.
 
-  (** *** Assumptions on raft, as predicates on the global trace. *)
-  (** Election safety + durable terms: two calls that observed "leader in
-      term t" happened on the same store, with no restart in between. *)
-  Fixpoint leaders (tr : list (gevent cmd)) (incs : N -> N) : list (N * N * N) :=
-    match tr with
-    | [] => []
-    | GStart s :: tr' => leaders tr' (fun x => if x =? s then incs x + 1 else incs x)
-    | GPropose s _ _ (VStatus true t _) :: tr' => (t, s, incs s) :: leaders tr' incs
-    | GRead s _ (VStatus true t _) :: tr' => (t, s, incs s) :: leaders tr' incs
-    | _ :: tr' => leaders tr' incs
-    end.
-  Definition election_safe (tr : list (gevent cmd)) : Prop :=
-    forall t s i s' i', In (t, s, i) (leaders tr (fun _ => 0)) -> In (t, s', i') (leaders tr (fun _ => 0)) ->
-                        s = s' /\ i = i'.
+  (** *** Assumptions on raft. [P]: the proposals registered during the trace
+      (store, incarnation = number of restarts of that store so far, the term
+      in which the store saw itself as leader). *)
+  (** Election safety + durable terms: a term has one leader, and a store that
+      restarts has to win a later term before it is leader again.  So two
+      proposals accepted under the same term come from the same incarnation of
+      the same store. *)
+  Definition election_safe (P : list (proposal cmd)) : Prop :=
+    forall p1 p2, In p1 P -> In p2 P -> pr_term p1 = pr_term p2 ->
+                  pr_store p1 = pr_store p2 /\ pr_inc p1 = pr_inc p2.
   (** Validity: raft delivers only entries that some ProposeCommand created:
       the id and the command of a delivered command entry are those of a
       registered proposal. *)
   Definition entries_valid (tr : list (gevent cmd)) : Prop :=
     forall s es id c e, In (GDeliver s es) tr -> In e es -> e_data e = PCmd id c ->
       exists pr, In pr (g_props (grun applier init_sm nid tr)) /\ pr_id pr = id /\ pr_cmd pr = c.
-  (** Ranges: terms and per-incarnation call counts stay below 2^32 (the id
-      packs both into 64 bits). *)
+  (** Ranges: terms and the number of calls stay below 2^32 (the id packs a
+      term and a counter into 64 bits). *)
   Definition calls_of (tr : list (gevent cmd)) : N :=
     N.of_nat (length (filter (fun e => match e with GPropose _ _ _ _ | GRead _ _ _ => true | _ => false end) tr)).
-  Definition terms_small (tr : list (gevent cmd)) : Prop :=
-    forall t s i, In (t, s, i) (leaders tr (fun _ => 0)) -> 0 < t < 2^32.
-  Definition in_range (tr : list (gevent cmd)) : Prop := terms_small tr /\ calls_of tr < 2^32 - 1.
-  (** Client calls are numbered apart. *)
-  Definition callers (tr : list (gevent cmd)) : list N :=
-    flat_map (fun e => match e with GPropose _ w _ _ => [w] | _ => [] end) tr.
+  Definition terms_ok (P : list (proposal cmd)) : Prop := forall p, In p P -> 0 < pr_term p < 2^32.
+  Definition calls_small (tr : list (gevent cmd)) : Prop := calls_of tr < 2^32 - 1.
 
-  (** *** The property. *)
+  (** *** The property: whoever is handed a result registered a proposal on
+      that store under the id of the entry that produced the result, and that
+      entry carries the command of this very proposal. *)
   Definition response_matches (g : gstate cmd resp sm) : Prop :=
-    forall s k, In (s, k) (completions g) ->
+    forall s k, In k (completions g s) ->
       exists pr, In pr (g_props g) /\ pr_w pr = k_w k /\ pr_store pr = s /\
                  pr_id pr = ap_reqid (k_by k) /\ pr_cmd pr = ap_cmd (k_by k).
-  Definition answered_once (g : gstate cmd resp sm) : Prop := NoDup (map (fun x => k_w (snd x)) (completions g)).
 
   (** ** C23, reads. [committed]: the one committed sequence (log matching).
       A read served at a store that has executed the first [n] entries
